@@ -1,0 +1,209 @@
+//go:build verif
+
+// Contracts for the remaining body entry points of the transaction (package corazawaf): ReadRequestBodyFrom,
+// WriteResponseBody, ReadResponseBodyFrom; checked by /verif/govc (comment-only file; no code).
+// Modelled on (*Transaction).WriteRequestBody in zz_contracts_verif.go (BufInv, bufContent, TxReqInv, reqContent,
+// PhaseInv are defined there); the reader model (ioVer, rest) is the one of /verif/specs/http.spec, io.CopyN and
+// ByteLenger.Len are assumed in /verif/specs/bodyio.spec.
+package corazawaf
+
+// ---------------------------------------------------------------- response side invariant (C10)
+
+// TxResInv: the response buffer is well formed and its own limit is not below the transaction's, so a write the
+// transaction admits is never refused by the buffer. As on the request side, NOTHING is assumed about how the bytes
+// already buffered compare with tx.ResponseBodyLimit: ctl:responseBodyLimit may have lowered (or zeroed, or made
+// negative) the limit after bytes were stored.
+//@ define TxResInv(tx *Transaction) bool := tx.WAF != nil && tx.responseBodyBuffer != nil && BufInv(tx.responseBodyBuffer) &&
+//@     tx.ResponseBodyLimit <= tx.responseBodyBuffer.options.Limit && tx.ResponseBodyLimit <= 1099511627776 &&
+//@     (tx.WAF.ResponseBodyLimitAction == types.BodyLimitActionReject || tx.WAF.ResponseBodyLimitAction == types.BodyLimitActionProcessPartial)
+
+//@ define resContent(tx *Transaction) string := bufContent(tx.responseBodyBuffer)
+
+// active: the engine is on (or detection only) and the body is accessible -- the only case in which anything is stored
+//@ define reqActive(tx *Transaction) bool := tx.RuleEngine != types.RuleEngineOff && tx.RequestBodyAccess
+//@ define resActive(tx *Transaction) bool := tx.RuleEngine != types.RuleEngineOff && tx.ResponseBodyAccess
+
+// ---------------------------------------------------------------- WriteResponseBody (C10, C02, C20, C07)
+
+// With the engine on and response body access on,
+//  - Reject: the body is refused with status 500 exactly when the cumulative size reaches the limit, nothing of the
+//    refused chunk is stored and the interruption is recorded on the transaction;
+//  - below the limit the chunk is stored completely and in order;
+//  - ProcessPartial: exactly the first (limit - stored) bytes of the chunk are stored, none when the limit is already
+//    below what is stored (never a negative count: slice/b[:writingBytes]);
+//  - an error of the buffer is the returned error: whenever no error is returned the bytes are in the buffer.
+//@ func (*Transaction).WriteResponseBody props C10,C20,C02,C07
+//@   requires TxResInv(tx) && PhaseInv(tx) && tx.variables.outboundDataError != nil && !isnil(tx.debugLogger)
+//@   modifies inferred, tx.evalCount
+//@   ensures PhaseInv(tx)
+//@   ensures engineOff: old(tx.RuleEngine) == types.RuleEngineOff ==> result0 == nil && result1 == 0 && isnil(result2) && resContent(tx) == old(resContent(tx)) &&
+//@       tx.interruption == old(tx.interruption)
+//@   ensures noAccess: !old(tx.ResponseBodyAccess) ==> result0 == nil && result1 == 0 && isnil(result2) && resContent(tx) == old(resContent(tx)) &&
+//@       tx.interruption == old(tx.interruption)
+//@   ensures refused: old(resActive(tx)) && old(tx.WAF.ResponseBodyLimitAction) == types.BodyLimitActionReject &&
+//@       old(tx.responseBodyBuffer.length) != old(tx.ResponseBodyLimit) && old(tx.responseBodyBuffer.length) + len(b) >= old(tx.ResponseBodyLimit) ==>
+//@       result0 != nil && result0.Status == 500 && result0 == tx.interruption && result1 == 0 && isnil(result2) && resContent(tx) == old(resContent(tx))
+//@   ensures notRefused: old(resActive(tx)) && old(tx.WAF.ResponseBodyLimitAction) == types.BodyLimitActionReject && isnil(result2) &&
+//@       old(tx.responseBodyBuffer.length) + len(b) < old(tx.ResponseBodyLimit) ==> result0 == old(tx.interruption) && tx.interruption == old(tx.interruption)
+//@   ensures stored: old(resActive(tx)) && isnil(result2) &&
+//@       old(tx.responseBodyBuffer.length) + len(b) < old(tx.ResponseBodyLimit) ==> result1 == len(b) && resContent(tx) == old(resContent(tx)) + old(str(b))
+//@   ensures partial: old(resActive(tx)) && isnil(result2) &&
+//@       old(tx.WAF.ResponseBodyLimitAction) == types.BodyLimitActionProcessPartial &&
+//@       old(tx.responseBodyBuffer.length) < old(tx.ResponseBodyLimit) && old(tx.responseBodyBuffer.length) + len(b) >= old(tx.ResponseBodyLimit) ==>
+//@       result1 == old(tx.ResponseBodyLimit) - old(tx.responseBodyBuffer.length) &&
+//@       resContent(tx) == old(resContent(tx)) + old(str(b))[0:old(tx.ResponseBodyLimit) - old(tx.responseBodyBuffer.length)]
+//@   ensures partialOverfull: old(resActive(tx)) && isnil(result2) &&
+//@       old(tx.WAF.ResponseBodyLimitAction) == types.BodyLimitActionProcessPartial &&
+//@       old(tx.responseBodyBuffer.length) > old(tx.ResponseBodyLimit) ==> result1 == 0 && resContent(tx) == old(resContent(tx))
+// no spurious error: a chunk that stays below the limit and within the in-memory limit is always accepted
+//@   ensures noSpuriousError: old(tx.responseBodyBuffer.length) + len(b) < old(tx.ResponseBodyLimit) &&
+//@       old(tx.responseBodyBuffer.length) + len(b) <= old(tx.responseBodyBuffer.options.MemoryLimit) ==> isnil(result2)
+//@   ensures full: old(resActive(tx)) &&
+//@       old(tx.responseBodyBuffer.length) == old(tx.ResponseBodyLimit) ==> result1 == 0 && isnil(result2) && resContent(tx) == old(resContent(tx)) && tx.interruption == old(tx.interruption)
+//@   ensures neverBeyond: isnil(result2) ==> len(resContent(tx)) <= old(len(resContent(tx))) || len(resContent(tx)) <= old(tx.ResponseBodyLimit)
+//@   ensures countIsStored: isnil(result2) ==> 0 <= result1 && result1 <= len(b) && len(resContent(tx)) == old(len(resContent(tx))) + result1
+// the body phase runs exactly when ProcessPartial cuts the body: the flag is final when the buffer is written, and
+// after the write only a buffer error (returned) stands between the flag and the call
+//@   at call "tx.responseBodyBuffer.Write(b[:writingBytes])" requires processed: runProcessResponseBody == (old(tx.WAF.ResponseBodyLimitAction) == types.BodyLimitActionProcessPartial &&
+//@       old(tx.responseBodyBuffer.length) + len(b) >= old(tx.ResponseBodyLimit))
+//@   at call "tx.ProcessResponseBody()" requires cutOnly: runProcessResponseBody && isnil(err) && resContent(tx) == old(resContent(tx)) + old(str(b))[0:w]
+
+// ---------------------------------------------------------------- ReadRequestBodyFrom (C10, C02, C20, C07)
+
+// reqOffered(r): what the reader still has when the call starts; reqTaken(tx): how many bytes the request buffer gained.
+//@ define reqOffered(r io.Reader) string := rest(old(ioVer), r)
+//@ define reqTaken(tx *Transaction) int := len(reqContent(tx)) - old(len(reqContent(tx)))
+// reqCut: ProcessPartial applies and the cumulative size reaches the limit -- the one case in which the body phase is
+// run from inside the call. (Clauses that have to survive that call are stated separately for this case, suffix Cut:
+// they depend on what ProcessRequestBody leaves of the buffer and its spill file.)
+//@ define reqCut(tx *Transaction, r io.Reader) bool := old(tx.WAF.RequestBodyLimitAction) == types.BodyLimitActionProcessPartial &&
+//@     old(tx.requestBodyBuffer.length) + len(rest(old(ioVer), r)) >= old(tx.RequestBodyLimit)
+// knownLen(r): r is one of the standard readers with a Len method (they implement ByteLenger)
+//@ define knownLen(r io.Reader) bool := typeof(r) == tag("*bytes.Reader") || typeof(r) == tag("*bytes.Buffer") || typeof(r) == tag("*strings.Reader")
+
+// With the engine on and request body access on, for every reader (with or without a known length):
+//  - whatever is taken from the reader is what is appended to the buffer, in order, byte for byte (`faithful`), and
+//    the reader is left with the remainder (`remainder`; stated where no body processing ran afterwards -- the body
+//    processors read through other readers and the model keeps no facts across that -- and, for the ProcessPartial
+//    cut, right before the processing starts: `cutOnly`);
+//  - below the limit everything the reader had is stored (`stored`);
+//  - Reject: the body is refused with 413 exactly when the cumulative size reaches the limit (`refused`,
+//    `notRefused`), and the interruption is recorded on the transaction; nothing beyond the limit is stored
+//    (`neverBeyond`); for a reader of known length nothing at all of the refused body is stored or consumed
+//    (`knownLengthRefusedWhole`);
+//  - ProcessPartial: exactly the first (limit - stored) bytes are stored (`partial`) and the body phase runs
+//    (`processed`), and only then (`processedOnlyAtLimit`);
+//  - the limit may have been lowered below what is already buffered (ctl:requestBodyLimit): then nothing is stored
+//    (`overfullNothingStored`, `partialOverfull`), the count handed to io.CopyN must not be negative
+//    (`countInRange`), Reject still refuses (`refusedOverfull`) and ProcessPartial still processes
+//    (`processedOverfull`), as WriteRequestBody does;
+//  - the returned count is the number of bytes stored (`countIsStored`);
+//  - an error of the buffer or the reader is the returned error: whenever no error is returned the bytes are there.
+//@ func (*Transaction).ReadRequestBodyFrom props C10,C20,C02,C07
+//@   requires TxReqInv(tx) && PhaseInv(tx) && tx.variables.inboundDataError != nil && !isnil(tx.debugLogger)
+//@   modifies inferred, tx.evalCount, ioVer
+//@   ensures PhaseInv(tx)
+//@   ensures engineOff: old(tx.RuleEngine) == types.RuleEngineOff ==> result0 == nil && result1 == 0 && isnil(result2) && reqContent(tx) == old(reqContent(tx)) &&
+//@       tx.interruption == old(tx.interruption) && ioVer == old(ioVer)
+//@   ensures noAccess: !old(tx.RequestBodyAccess) ==> result0 == nil && result1 == 0 && isnil(result2) && reqContent(tx) == old(reqContent(tx)) &&
+//@       tx.interruption == old(tx.interruption) && ioVer == old(ioVer)
+//@   ensures full: old(reqActive(tx)) && old(tx.requestBodyBuffer.length) == old(tx.RequestBodyLimit) ==>
+//@       result1 == 0 && isnil(result2) && reqContent(tx) == old(reqContent(tx)) && tx.interruption == old(tx.interruption) && ioVer == old(ioVer)
+//@   ensures faithful: isnil(result2) && !reqCut(tx, r) ==> 0 <= reqTaken(tx) && reqTaken(tx) <= len(reqOffered(r)) &&
+//@       reqContent(tx) == old(reqContent(tx)) + reqOffered(r)[0:reqTaken(tx)]
+//@   ensures faithfulCut: isnil(result2) && reqCut(tx, r) ==> 0 <= reqTaken(tx) && reqTaken(tx) <= len(reqOffered(r)) &&
+//@       reqContent(tx) == old(reqContent(tx)) + reqOffered(r)[0:reqTaken(tx)]
+//@   ensures remainder: isnil(result2) && !reqCut(tx, r) ==> rest(ioVer, r) == reqOffered(r)[reqTaken(tx):len(reqOffered(r))]
+//@   ensures stored: old(reqActive(tx)) && isnil(result2) && old(tx.requestBodyBuffer.length) + len(reqOffered(r)) < old(tx.RequestBodyLimit) ==>
+//@       result1 == len(reqOffered(r)) && reqContent(tx) == old(reqContent(tx)) + reqOffered(r)
+// no spurious error: a body that ends cleanly below the limit and fits the in-memory limit is always accepted
+// (in particular the EOF that ends the copy is not reported as an error)
+//@   ensures noSpuriousError: !readFails(old(ioVer), r) && old(tx.requestBodyBuffer.length) + len(reqOffered(r)) < old(tx.RequestBodyLimit) &&
+//@       old(tx.requestBodyBuffer.length) + len(reqOffered(r)) <= old(tx.requestBodyBuffer.options.MemoryLimit) ==> isnil(result2)
+//@   ensures refused: old(reqActive(tx)) && isnil(result2) && old(tx.WAF.RequestBodyLimitAction) == types.BodyLimitActionReject &&
+//@       old(tx.requestBodyBuffer.length) < old(tx.RequestBodyLimit) && old(tx.requestBodyBuffer.length) + len(reqOffered(r)) >= old(tx.RequestBodyLimit) ==>
+//@       result0 != nil && result0.Status == 413 && result0 == tx.interruption
+//@   ensures refusedOverfull: old(reqActive(tx)) && isnil(result2) && old(tx.WAF.RequestBodyLimitAction) == types.BodyLimitActionReject &&
+//@       old(tx.requestBodyBuffer.length) > old(tx.RequestBodyLimit) ==> result0 != nil && result0.Status == 413 && result0 == tx.interruption
+//@   ensures knownLengthRefusedWhole: old(reqActive(tx)) && isnil(result2) && knownLen(r) && old(tx.WAF.RequestBodyLimitAction) == types.BodyLimitActionReject &&
+//@       old(tx.requestBodyBuffer.length) != old(tx.RequestBodyLimit) && old(tx.requestBodyBuffer.length) + len(reqOffered(r)) >= old(tx.RequestBodyLimit) ==>
+//@       result0 != nil && result0.Status == 413 && result0 == tx.interruption && result1 == 0 && reqContent(tx) == old(reqContent(tx)) && ioVer == old(ioVer)
+//@   ensures notRefused: old(reqActive(tx)) && isnil(result2) && old(tx.WAF.RequestBodyLimitAction) == types.BodyLimitActionReject &&
+//@       old(tx.requestBodyBuffer.length) + len(reqOffered(r)) < old(tx.RequestBodyLimit) ==> result0 == old(tx.interruption) && tx.interruption == old(tx.interruption)
+//@   ensures partial: old(reqActive(tx)) && isnil(result2) && reqCut(tx, r) && old(tx.requestBodyBuffer.length) < old(tx.RequestBodyLimit) ==>
+//@       result1 == old(tx.RequestBodyLimit) - old(tx.requestBodyBuffer.length) &&
+//@       reqContent(tx) == old(reqContent(tx)) + reqOffered(r)[0:old(tx.RequestBodyLimit) - old(tx.requestBodyBuffer.length)]
+//@   ensures overfullNothingStored: old(reqActive(tx)) && isnil(result2) && !reqCut(tx, r) && old(tx.requestBodyBuffer.length) > old(tx.RequestBodyLimit) ==>
+//@       result1 == 0 && reqContent(tx) == old(reqContent(tx))
+//@   ensures partialOverfull: old(reqActive(tx)) && isnil(result2) && reqCut(tx, r) && old(tx.requestBodyBuffer.length) > old(tx.RequestBodyLimit) ==>
+//@       result1 == 0 && reqContent(tx) == old(reqContent(tx))
+//@   ensures neverBeyond: isnil(result2) && !reqCut(tx, r) ==> len(reqContent(tx)) <= old(len(reqContent(tx))) || len(reqContent(tx)) <= old(tx.RequestBodyLimit)
+//@   ensures neverBeyondCut: isnil(result2) && reqCut(tx, r) ==> len(reqContent(tx)) <= old(len(reqContent(tx))) || len(reqContent(tx)) <= old(tx.RequestBodyLimit)
+//@   ensures countIsStored: isnil(result2) && !reqCut(tx, r) ==> result1 == reqTaken(tx)
+//@   ensures countIsStoredCut: isnil(result2) && reqCut(tx, r) ==> result1 == reqTaken(tx)
+//@   at call "io.CopyN(tx.requestBodyBuffer, r, writingBytes)" requires countInRange: arg(2) >= 0
+//@   at "int(w)" requires processed: old(tx.WAF.RequestBodyLimitAction) == types.BodyLimitActionProcessPartial &&
+//@       old(tx.requestBodyBuffer.length) < old(tx.RequestBodyLimit) && old(tx.requestBodyBuffer.length) + w >= old(tx.RequestBodyLimit) ==> runProcessRequestBody
+//@   at "int(w)" requires processedOverfull: old(tx.WAF.RequestBodyLimitAction) == types.BodyLimitActionProcessPartial &&
+//@       old(tx.requestBodyBuffer.length) > old(tx.RequestBodyLimit) && (isnil(err) || err == io.EOF) ==> runProcessRequestBody
+//@   at "int(w)" requires processedOnlyAtLimit: runProcessRequestBody ==> reqCut(tx, r)
+//@   at call "tx.ProcessRequestBody()" requires cutOnly: reqCut(tx, r) && reqContent(tx) == old(reqContent(tx)) + reqOffered(r)[0:w] && rest(ioVer, r) == reqOffered(r)[w:len(reqOffered(r))] &&
+//@       (old(tx.requestBodyBuffer.length) < old(tx.RequestBodyLimit) ==> w == old(tx.RequestBodyLimit) - old(tx.requestBodyBuffer.length)) &&
+//@       (old(tx.requestBodyBuffer.length) > old(tx.RequestBodyLimit) ==> w == 0) && BufInv(tx.requestBodyBuffer)
+
+// ---------------------------------------------------------------- ReadResponseBodyFrom (C10, C02, C20, C07)
+
+//@ define resTaken(tx *Transaction) int := len(resContent(tx)) - old(len(resContent(tx)))
+//@ define resCut(tx *Transaction, r io.Reader) bool := old(tx.WAF.ResponseBodyLimitAction) == types.BodyLimitActionProcessPartial &&
+//@     old(tx.responseBodyBuffer.length) + len(rest(old(ioVer), r)) >= old(tx.ResponseBodyLimit)
+
+// The same clauses as ReadRequestBodyFrom, for the response buffer and status 500.
+//@ func (*Transaction).ReadResponseBodyFrom props C10,C20,C02,C07
+//@   requires TxResInv(tx) && PhaseInv(tx) && tx.variables.outboundDataError != nil && !isnil(tx.debugLogger)
+//@   modifies inferred, tx.evalCount, ioVer
+//@   ensures PhaseInv(tx)
+//@   ensures engineOff: old(tx.RuleEngine) == types.RuleEngineOff ==> result0 == nil && result1 == 0 && isnil(result2) && resContent(tx) == old(resContent(tx)) &&
+//@       tx.interruption == old(tx.interruption) && ioVer == old(ioVer)
+//@   ensures noAccess: !old(tx.ResponseBodyAccess) ==> result0 == nil && result1 == 0 && isnil(result2) && resContent(tx) == old(resContent(tx)) &&
+//@       tx.interruption == old(tx.interruption) && ioVer == old(ioVer)
+//@   ensures full: old(resActive(tx)) && old(tx.responseBodyBuffer.length) == old(tx.ResponseBodyLimit) ==>
+//@       result1 == 0 && isnil(result2) && resContent(tx) == old(resContent(tx)) && tx.interruption == old(tx.interruption) && ioVer == old(ioVer)
+//@   ensures faithful: isnil(result2) && !resCut(tx, r) ==> 0 <= resTaken(tx) && resTaken(tx) <= len(reqOffered(r)) &&
+//@       resContent(tx) == old(resContent(tx)) + reqOffered(r)[0:resTaken(tx)]
+//@   ensures faithfulCut: isnil(result2) && resCut(tx, r) ==> 0 <= resTaken(tx) && resTaken(tx) <= len(reqOffered(r)) &&
+//@       resContent(tx) == old(resContent(tx)) + reqOffered(r)[0:resTaken(tx)]
+//@   ensures remainder: isnil(result2) && !resCut(tx, r) ==> rest(ioVer, r) == reqOffered(r)[resTaken(tx):len(reqOffered(r))]
+//@   ensures stored: old(resActive(tx)) && isnil(result2) && old(tx.responseBodyBuffer.length) + len(reqOffered(r)) < old(tx.ResponseBodyLimit) ==>
+//@       result1 == len(reqOffered(r)) && resContent(tx) == old(resContent(tx)) + reqOffered(r)
+//@   ensures noSpuriousError: !readFails(old(ioVer), r) && old(tx.responseBodyBuffer.length) + len(reqOffered(r)) < old(tx.ResponseBodyLimit) &&
+//@       old(tx.responseBodyBuffer.length) + len(reqOffered(r)) <= old(tx.responseBodyBuffer.options.MemoryLimit) ==> isnil(result2)
+//@   ensures refused: old(resActive(tx)) && isnil(result2) && old(tx.WAF.ResponseBodyLimitAction) == types.BodyLimitActionReject &&
+//@       old(tx.responseBodyBuffer.length) < old(tx.ResponseBodyLimit) && old(tx.responseBodyBuffer.length) + len(reqOffered(r)) >= old(tx.ResponseBodyLimit) ==>
+//@       result0 != nil && result0.Status == 500 && result0 == tx.interruption
+//@   ensures refusedOverfull: old(resActive(tx)) && isnil(result2) && old(tx.WAF.ResponseBodyLimitAction) == types.BodyLimitActionReject &&
+//@       old(tx.responseBodyBuffer.length) > old(tx.ResponseBodyLimit) ==> result0 != nil && result0.Status == 500 && result0 == tx.interruption
+//@   ensures knownLengthRefusedWhole: old(resActive(tx)) && isnil(result2) && knownLen(r) && old(tx.WAF.ResponseBodyLimitAction) == types.BodyLimitActionReject &&
+//@       old(tx.responseBodyBuffer.length) != old(tx.ResponseBodyLimit) && old(tx.responseBodyBuffer.length) + len(reqOffered(r)) >= old(tx.ResponseBodyLimit) ==>
+//@       result0 != nil && result0.Status == 500 && result0 == tx.interruption && result1 == 0 && resContent(tx) == old(resContent(tx)) && ioVer == old(ioVer)
+//@   ensures notRefused: old(resActive(tx)) && isnil(result2) && old(tx.WAF.ResponseBodyLimitAction) == types.BodyLimitActionReject &&
+//@       old(tx.responseBodyBuffer.length) + len(reqOffered(r)) < old(tx.ResponseBodyLimit) ==> result0 == old(tx.interruption) && tx.interruption == old(tx.interruption)
+//@   ensures partial: old(resActive(tx)) && isnil(result2) && resCut(tx, r) && old(tx.responseBodyBuffer.length) < old(tx.ResponseBodyLimit) ==>
+//@       result1 == old(tx.ResponseBodyLimit) - old(tx.responseBodyBuffer.length) &&
+//@       resContent(tx) == old(resContent(tx)) + reqOffered(r)[0:old(tx.ResponseBodyLimit) - old(tx.responseBodyBuffer.length)]
+//@   ensures overfullNothingStored: old(resActive(tx)) && isnil(result2) && !resCut(tx, r) && old(tx.responseBodyBuffer.length) > old(tx.ResponseBodyLimit) ==>
+//@       result1 == 0 && resContent(tx) == old(resContent(tx))
+//@   ensures partialOverfull: old(resActive(tx)) && isnil(result2) && resCut(tx, r) && old(tx.responseBodyBuffer.length) > old(tx.ResponseBodyLimit) ==>
+//@       result1 == 0 && resContent(tx) == old(resContent(tx))
+//@   ensures neverBeyond: isnil(result2) && !resCut(tx, r) ==> len(resContent(tx)) <= old(len(resContent(tx))) || len(resContent(tx)) <= old(tx.ResponseBodyLimit)
+//@   ensures neverBeyondCut: isnil(result2) && resCut(tx, r) ==> len(resContent(tx)) <= old(len(resContent(tx))) || len(resContent(tx)) <= old(tx.ResponseBodyLimit)
+//@   ensures countIsStored: isnil(result2) && !resCut(tx, r) ==> result1 == resTaken(tx)
+//@   ensures countIsStoredCut: isnil(result2) && resCut(tx, r) ==> result1 == resTaken(tx)
+//@   at call "io.CopyN(tx.responseBodyBuffer, r, writingBytes)" requires countInRange: arg(2) >= 0
+//@   at "int(w)" requires processed: old(tx.WAF.ResponseBodyLimitAction) == types.BodyLimitActionProcessPartial &&
+//@       old(tx.responseBodyBuffer.length) < old(tx.ResponseBodyLimit) && old(tx.responseBodyBuffer.length) + w >= old(tx.ResponseBodyLimit) ==> runProcessResponseBody
+//@   at "int(w)" requires processedOverfull: old(tx.WAF.ResponseBodyLimitAction) == types.BodyLimitActionProcessPartial &&
+//@       old(tx.responseBodyBuffer.length) > old(tx.ResponseBodyLimit) && (isnil(err) || err == io.EOF) ==> runProcessResponseBody
+//@   at "int(w)" requires processedOnlyAtLimit: runProcessResponseBody ==> resCut(tx, r)
+//@   at call "tx.ProcessResponseBody()" requires cutOnly: resCut(tx, r) && resContent(tx) == old(resContent(tx)) + reqOffered(r)[0:w] && rest(ioVer, r) == reqOffered(r)[w:len(reqOffered(r))] &&
+//@       (old(tx.responseBodyBuffer.length) < old(tx.ResponseBodyLimit) ==> w == old(tx.ResponseBodyLimit) - old(tx.responseBodyBuffer.length)) &&
+//@       (old(tx.responseBodyBuffer.length) > old(tx.ResponseBodyLimit) ==> w == 0) && BufInv(tx.responseBodyBuffer)
